@@ -1,0 +1,16 @@
+//go:build verif
+
+// Contracts for package database (interfaces), read by /verif/govc.
+// Comment-only file.
+package database
+
+// An Update is read-only for its consumers: iteration calls `do` for each row
+// and does not write the verified heap itself.
+//@ func Update.GetUpdatedTables
+//@ modifies nothing
+//@ func Update.ForEachRowUpdate
+//@ iterator
+//@ modifies nothing
+//@ func Update.ForEachModelUpdate
+//@ iterator
+//@ modifies nothing
